@@ -72,6 +72,7 @@ class Dispatch(GenRule):
                 # the DNS matcher refuses a name with too many wildcards by raising (its own rows: C08-R1)
                 s2 = s.copy()
                 s2.log(node, "_dnsname_match raises CertificateError (too many wildcards)")
+                s2.ts["refused"] = s2.ts.get("refused", ()) + ((term_of(pos[0]) if pos else "?", tuple(s2.ts.get("loops", ()))),)
                 outs.append(Out("raise", s2, exc(f"{MH}.CertificateError")))
             return outs
         if isinstance(node.func, ast.Attribute) and node.func.attr == "get" and recv is not None and recv.sym == "p:cert" and pos and pos[0].kind == "const":
@@ -143,6 +144,27 @@ def run(ctx):
             ctx.ob(R4, mh.qual, "empty certificate -> ValueError", ok)
         else:
             ctx.ob(R4, mh.qual, f"exit kind {k}", False, "a path through match_hostname ends neither in success after a match nor in CertificateError", witness=lst[0].witness(), node=mh.node)
+
+    # ------------------------------------------------------------------ R8 the verdict does not depend on the order of the entries
+    R8 = ctx.rule("C08-R8", "an exact (or wildcard) match among the subjectAltName entries is found whatever precedes it: an entry the DNS matcher refuses by raising (more than one wildcard) does not end the walk over the entries before the later ones were examined", "E10 effect rows of match_hostname with the matcher raising")
+    n8 = 0
+    seen8 = set()
+    for r in rows:
+        for value, loops in r.st.ts.get("refused", ()):
+            if not any("subjectAltName" in l_ for l_ in loops):
+                continue  # refused outside the walk over the SAN entries (the legacy commonName): no SAN entry is skipped
+            texts = [t_ for _, t_ in r.st.path()]
+            at = max((i_ for i_, t_ in enumerate(texts) if "_dnsname_match raises CertificateError" in t_), default=-1)
+            handled = any("caught" in t_ for t_ in texts[at + 1:])
+            key = (r.out, handled)
+            if key in seen8:
+                continue
+            seen8.add(key)
+            n8 += 1
+            ok = handled or r.returns
+            ctx.ob(R8, mh.qual, "an entry the matcher refuses does not end the walk over the subjectAltName entries", ok,
+                   "" if ok else "the CertificateError raised for one entry (too many wildcards) leaves the loop: entries listed after it are never examined, so the verdict depends on their order", witness=r.witness(), node=mh.node)
+    ctx.sites(R8, n8, 1, "rows on which the DNS matcher refuses an entry inside the walk")
 
     # ------------------------------------------------------------------ R5 IP by value
     R5 = ctx.rule("C08-R5", "IP entries are compared by address value (packed bytes of parsed addresses); the zone id is cut before parsing the host", "E10 effect rows")
